@@ -42,6 +42,7 @@ class Worker:
             env=env, text=True, bufsize=1)
         self.lock = threading.Lock()
         self.ready = None
+        self.history = []     # run seeds executed so far, in order
 
     def wait_ready(self):
         line = self.p.stdout.readline()
@@ -125,8 +126,15 @@ class Pool:
             job = q.get()
             if job is None:
                 return
+            if job.get('cmd') == 'run':
+                w.history.append(job['seed'])
             try:
                 res = w.call(job)
+                if job.get('cmd') == 'run':
+                    # what this interpreter had executed when it ran the job:
+                    # part of the schedule if the code under test carries
+                    # state from run to run
+                    res['worker_history'] = list(w.history)
             except WorkerDied as ex:
                 res = {'id': job['id'], 'hashseed': w.hashseed,
                        'error': 'WorkerDied: %s' % ex, 'died': True}
